@@ -128,6 +128,21 @@ theorem mergeBT_leaves (shape : List BT → BT) (hs : ValidShape shape) (xs : Li
     rw [this]
     exact hs _ (by simp)
 
+theorem caterpillar_leaves_aux (rest : List BT) (x : BT) :
+    (rest.foldl (fun acc y => BT.node acc y) x).leaves = x.leaves ++ (rest.map BT.leaves).flatten := by
+  induction rest generalizing x with
+  | nil => simp
+  | cons y t ih => rw [List.foldl_cons, ih]; simp [BT.leaves, List.append_assoc]
+
+/-- `ValidShape` is inhabited: the left caterpillar is a valid sub-optimizer -/
+theorem validShape_caterpillar : ValidShape caterpillar := by
+  intro xs _
+  match xs with
+  | [] => simp at *
+  | x :: rest =>
+    simp only [caterpillar, caterpillar_leaves_aux, List.map_cons, List.flatten_cons]
+    exact List.Perm.refl _
+
 def leavesOf (items : List BT) : List Nat := (items.map BT.leaves).flatten
 
 theorem splitAt_picked_ne_nil {α} (p : List Nat) (xs : List α) (off i : Nat) (hi : i ∈ p)
